@@ -23,7 +23,7 @@ from ..replay import Divergence
 from . import _httppair as P
 
 SPEC_DIR = env.SPECS + "/http"
-ACTIONS = ["ClientRequest", "ServerService", "ClientService"]
+ACTIONS = ["ClientRequest", "ServerService", "ClientService", "FollowUp"]
 METHODS = ["GET", "HEAD", "PUT", "PATCH", "POST", "DELETE", "OPTIONS", "TRACE", "CONNECT"]
 PORT = 8130
 
@@ -43,7 +43,8 @@ ATOMS = {"Jnum": [1, -7, 2.5, 0, 10 ** 20], "Jtrue": [True, False], "Jnull": [No
 KEYS = {("k",): ["k", "name", "x-1", "K_2"], ("j", "2"): ["j2", "other", "y.z", "Q"]}
 HNAMES = {("X", "-", "a", "B"): ["X-aB", "x-custom", "X-REQUEST-ID", "If-None-Match"]}
 RAW = {"CR": [13], "LF": [10], "SP": [32], "NUL": [0], "HI": [0x80, 0xff, 0xe9, 0xc3]}
-REASONS = {200: "OK", 204: "No Content", 404: "Not Found", 500: "Oops", 418: "Teapot"}
+REASONS = {200: "OK", 204: "No Content", 304: "Not Modified", 404: "Not Found", 500: "Oops", 418: "Teapot"}
+NEXT_BODY = b"nxt"
 HOSTV = ("h", ":", "8")
 JSONT = tuple("json")
 FORMT = tuple("form")
@@ -194,6 +195,9 @@ class RecordingApp:
     def __call__(self, environ, start_response):
         from ioflo.aio.http import httping
         ca = environ.get("REMOTE_ADDR")
+        if environ.get("PATH_INFO") == "/next":        # the further request on the same connection
+            start_response("200 OK", [("Content-Length", str(len(NEXT_BODY)))])
+            return [NEXT_BODY]
         body = environ["wsgi.input"].read()
         self.seen.setdefault(ca, []).append({"environ": {k: v for k, v in environ.items() if not k.startswith("wsgi.")},
                                              "scheme": environ.get("wsgi.url_scheme"), "body": body})
@@ -277,6 +281,16 @@ class RoundAdapter:
                         if p.responses:
                             break
                 return {"stage": "done", "got": self.project_got(expected["got"])}
+            if name == "FollowUp":
+                from ioflo.aid.odicting import odict
+                for p in self.patrons:
+                    p.request(method="GET", path="/next", qargs=odict(), headers={})
+                    for _ in range(10):
+                        p.serviceAll()
+                        self.valet.serviceAll()
+                        if len(p.responses) >= 2:
+                            break
+                return {"stage": "again", "next": self.project_next()}
         raise NotImplementedError(name)
 
     # ---- projections: the first concretisation that disagrees (concretely or symbolically) is shown
@@ -388,6 +402,27 @@ class RoundAdapter:
                 return a
         return first
 
+    def project_next(self):
+        want = {"status": 200, "reason": ("O", "K"), "heads": frozenset(), "body": abstract_raw(NEXT_BODY)}
+        for v, p in zip(self.variants, self.patrons):
+            if len(p.responses) != 2:
+                self.detail = {"request": repr(v.kwargs()), "plan": repr(v.resp), "problem": "%d responses after the further request" % len(p.responses),
+                               "unread": repr(bytes(p.connector.rxbs)[:200])}
+                return {"status": -len(p.responses) - 1}
+            r = p.responses[1]
+            a = {"status": r["status"] if not r["errored"] else -1,
+                 "reason": tuple("SP" if c == " " else c for c in (r["reason"] or "")),
+                 "heads": frozenset((tuple(k), abstract(val, "header")) for k, val in r["headers"].items()
+                                    if k not in ("content-length", "transfer-encoding", "server", "content-type", "date")),
+                 "body": abstract_raw(bytes(r["body"]))}
+            if str((r.get("request") or {}).get("path")) != "/next":
+                a["status"] = -2
+            if replay.diff(replay.norm(want), replay.norm(a), ""):
+                self.detail = {"request": repr(v.kwargs()), "plan": repr(v.resp), "first": repr(dict(p.responses[0]))[:400],
+                               "second": repr({k: r[k] for k in ("status", "reason", "headers", "body", "errored", "error")})}
+                return a
+        return want
+
     def close(self):
         with P.patched(self.net), P.quiet():
             try:
@@ -425,9 +460,9 @@ def run_c30(ctx):
     dot = env.subdir("c30") + "/cover.dot"
     pool = ThreadPoolExecutor(max_workers=2)
     fut_cover = pool.submit(tlc.run, "HttpRound", cfg_text("cover", CLASSES8, props=False), spec_dir=SPEC_DIR, dump_dot=dot,
-                            tag="c30g", coverage=False, workers=max(2, env.NCPU // 4))
+                            tag="c30g", coverage=False, workers=max(2, env.NCPU // 4), timeout=6 * 3600)
     res = tlc.run("HttpRound", cfg_text("mc", ctx.pick(CLASSES4, CLASSES8), bodyitems=ctx.pick(1, 2)), spec_dir=SPEC_DIR, tag="c30mc",
-                  timeout=5400, workers=max(2, env.NCPU - env.NCPU // 4))
+                  timeout=6 * 3600, workers=max(2, env.NCPU - env.NCPU // 4))
     ctx.add_model(res, "HttpRound/mc", {"QC": ctx.pick(CLASSES4, CLASSES8), "MaxLen": 2, "MaxItems": 2, "BodyItems": ctx.pick(1, 2)})
     if not res.ok:
         ctx.diverge(Divergence("C30", "model", res.error_name or res.error, "HttpRound", "specification property violated in the model",
@@ -437,7 +472,7 @@ def run_c30(ctx):
     res = fut_cover.result()
     ctx.add_model(res, "HttpRound/cover-graph", {"QC": CLASSES8})
     g = graph.load_dot(dot)
-    paths = graph.edge_cover(g, max_len=6)
+    paths = graph.edge_cover(g, max_len=8)
     traces = replay.graph_paths_to_traces(g, paths)
     nvar = ctx.pick(3, 10)
     holder = {}
